@@ -86,6 +86,8 @@ def main():
         return 2
     try:
         failures += chk.correspond(drv, stats)
+        from vcheck import reuse as _reuse
+        failures += _reuse.check(a.prop, stats)        # statelessness: used-then-changed objects vs fresh objects
     except Exception:
         failures.append(core.Failure("correspondence", "harness of " + a.prop, traceback.format_exc()))
     finally:
